@@ -43,7 +43,12 @@ def isConst (v : Option Val) (target : Const) : Bool :=
 
 /-- `IsSmallInt` -/
 def LiteralPolicy.isSmallInt (p : LiteralPolicy) (c : Const) : Bool :=
-  c.kind == .int && c.fits64 && p.smallIntMin ≤ c.i64 && c.i64 ≤ p.smallIntMax
+  c.kind == .int &&
+  (if c.fits64 then decide (p.smallIntMin ≤ c.i64) && decide (c.i64 ≤ p.smallIntMax)
+   else
+     -- a constant that does not fit an int64: a range spanning all of int64 means "no limit" (fix
+     -- "KeepAllLiteralsPolicy keeps integer constants that do not fit an int64")
+     p.smallIntMin == -9223372036854775808 && p.smallIntMax == 9223372036854775807)
 
 /-- `IsComparisonOp` -/
 def isComparisonOp (op : String) : Bool :=
